@@ -174,17 +174,17 @@ impl Prop for Order {
             cx.label("both_bc");
         }
         let want = ia.cmp(&ib);
-        let route = ((c.a.ns ^ c.b.ns ^ c.a.day) % 20) as u8;
-        let late = edge || route >= 17;
+        let route = ((c.a.ns ^ c.b.ns ^ c.a.day) % 24) as u8;
+        let late = edge || route >= 21;
         let r = catch(|| {
-            let a = if late { mk_dt_off_late(ia, c.oa) } else if route < 10 { mk_dt_route(ia, route).set_offset(Offset::Fixed(c.oa)) } else {
+            let a = if late { mk_dt_off_late(ia, c.oa) } else if route < 12 { mk_dt_route(ia, route).set_offset(Offset::Fixed(c.oa)) } else {
                 let (v, local) = mk_dt_off_pin(ia, c.oa);
                 if local {
                     cx.nt("operand_carries_Offset::Local");
                 }
                 v
             };
-            let b = if late { mk_dt_off_late(ib, c.ob) } else if route < 10 { mk_dt_route(ib, route / 2).set_offset(Offset::Fixed(c.ob)) } else { mk_dt_off(ib, c.ob) };
+            let b = if late { mk_dt_off_late(ib, c.ob) } else if route < 12 { mk_dt_route(ib, (route + 7) % 12).set_offset(Offset::Fixed(c.ob)) } else { mk_dt_off(ib, c.ob) };
             let stamps = (a.timestamp(), b.timestamp());
             let since = [
                 sgn(a.years_since(&b)),
